@@ -231,6 +231,233 @@ Section Partition.
           destruct (Nat.eqb_spec b0 b); [congruence|]. exists c'. exact Hc.
   Qed.
 
+
+  (** ** weaving: per-bucket annotated traces of a tagged history give an annotated trace of the whole history *)
+
+  (** a history whose events carry the bucket they belong to *)
+  Notation hevS := (hev SetSpec).
+  Definition hfilter (b : nat) (gl : list (nat * hevS)) : list hevS :=
+    map snd (filter (fun x => Nat.eqb (fst x) b) gl).
+
+  (** per-thread alternation invoke / response of the whole history, from the "open" state [opn] *)
+  Fixpoint hseq (opn : nat -> bool) (gl : list (nat * hevS)) : Prop :=
+    match gl with
+    | [] => True
+    | (b, HInv t o) :: r => opn t = false /\ op_bucket o = Some b /\ hseq (fun u => if Nat.eqb u t then true else opn u) r
+    | (b, HRes t _) :: r => opn t = true /\ hseq (fun u => if Nat.eqb u t then false else opn u) r
+    end.
+
+  Definition is_lin (e : aevS) : bool := match e with ALin _ => true | _ => false end.
+  Fixpoint span_lins (l : list aevS) : list aevS * list aevS :=
+    match l with
+    | ALin t :: r => let (a, b) := span_lins r in (ALin t :: a, b)
+    | _ => ([], l)
+    end.
+  Definition no_lead_lin (l : list aevS) : Prop := match l with ALin _ :: _ => False | _ => True end.
+
+  Lemma span_lins_app l : l = fst (span_lins l) ++ snd (span_lins l).
+  Proof. induction l as [|[t o|t|t r] l IH]; cbn; auto. destruct (span_lins l); cbn in *. congruence. Qed.
+  Lemma span_lins_lins l : Forall (fun e => is_lin e = true) (fst (span_lins l)).
+  Proof. induction l as [|[t o|t|t r] l IH]; cbn; auto. destruct (span_lins l); cbn in *. constructor; auto. Qed.
+  Lemma span_lins_rest l : no_lead_lin (snd (span_lins l)).
+  Proof. induction l as [|[t o|t|t r] l IH]; cbn; auto. destruct (span_lins l); cbn in *. exact IH. Qed.
+  Lemma erase_lins l : Forall (fun e => is_lin e = true) l -> erase l = [].
+  Proof. induction 1 as [|e l He _ IH]; [reflexivity|]. destruct e; cbn in *; try discriminate. exact IH. Qed.
+
+  Definition set_cs (cs : nat -> list Z * (nat -> statusS)) (b : nat) (c : list Z * (nat -> statusS)) :=
+    fun b' => if Nat.eqb b' b then c else cs b'.
+
+  (** one event of bucket [b]'s annotated trace, replayed on the global configuration *)
+  Lemma rel_step S st cs cur b e cb' :
+    rel S st cs cur -> lp_step (Sp:=SetSpec) (cs b) e = Some cb' ->
+    match e with AInv t o => op_bucket o = Some b /\ st t = Idle | _ => True end ->
+    exists S' st' cur', lp_step (Sp:=SetSpec) (S, st) e = Some (S', st') /\ rel S' st' (set_cs cs b cb') cur' /\
+      (forall u, st' u = Idle <-> (match e with AInv t _ => u <> t /\ st u = Idle | ALin _ => st u = Idle | ARes t _ => u = t \/ st u = Idle end)).
+  Proof.
+    intros (R1 & R2 & R3 & R4) Hstep Hpre. destruct (cs b) as [sb stb] eqn:Ecs.
+    destruct e as [t o|t|t x]; cbn [lp_step] in *.
+    - (* invoke *)
+      destruct Hpre as [Hob Hidle]. destruct (stb t) eqn:Estb; try discriminate. inversion Hstep; subst cb'; clear Hstep.
+      rewrite Hidle. exists S, (upd st t (Pending o)), (upd_cur cur t (Some b)). split; [reflexivity|]. split.
+      + repeat split.
+        * intros k. unfold set_cs. destruct (Nat.eqb_spec (bucket k) b) as [E|E]; cbn [fst]; [rewrite R1, E, Ecs; reflexivity|apply R1].
+        * intros u. unfold upd_cur, upd. destruct (Nat.eqb_spec u t); [cbn; symmetry; exact Hob|apply R2].
+        * intros u. unfold upd_cur, upd. destruct (Nat.eqb_spec u t); [congruence|apply R3].
+        * intros u b0. unfold set_cs, upd_cur, upd. destruct (Nat.eqb_spec b0 b) as [->|Hb]; cbn [snd].
+          -- destruct (Nat.eqb_spec u t) as [->|Hu]; [cbn; rewrite Nat.eqb_refl; reflexivity|].
+             specialize (R4 u b). rewrite Ecs in R4. exact R4.
+          -- destruct (Nat.eqb_spec u t) as [->|Hu]; [|apply R4]. cbn. destruct (Nat.eqb_spec b b0); [congruence|].
+             rewrite R4. rewrite R2, Hidle. reflexivity.
+      + intros u. unfold upd. destruct (Nat.eqb_spec u t) as [->|Hu]; split; try tauto; try (intros H; discriminate); intros [H _]; congruence.
+    - (* linearization point *)
+      destruct (stb t) as [|o|] eqn:Estb; try discriminate. inversion Hstep; subst cb'; clear Hstep.
+      assert (Hin : in_b b (cur t) = true /\ st t = Pending o).
+      { specialize (R4 t b). rewrite Ecs in R4. cbn in R4. rewrite Estb in R4. destruct (in_b b (cur t)); [auto|discriminate]. }
+      destruct Hin as [Hin Est]. apply in_b_true in Hin.
+      assert (Hob : op_bucket o = Some b) by (rewrite <- Hin, R2, Est; reflexivity).
+      destruct (op_key o) as [k|] eqn:Ek; [|unfold op_bucket in Hob; rewrite Ek in Hob; discriminate].
+      assert (Hbk : bucket k = b) by (unfold op_bucket in Hob; rewrite Ek in Hob; inversion Hob; reflexivity).
+      destruct (set_step_local S o k Ek) as (L1 & L2 & L3). destruct (set_step_local sb o k Ek) as (M1 & M2 & M3).
+      assert (Hmem : zmem k S = zmem k sb) by (rewrite R1, Hbk, Ecs; reflexivity).
+      assert (Hres : snd (set_step S o) = snd (set_step sb o)) by (rewrite L1, M1, Hmem; reflexivity).
+      rewrite Est. exists (fst (set_step S o)), (upd st t (Linearized o (snd (set_step S o)))), cur. split; [reflexivity|]. split.
+      + repeat split.
+        * intros k'. unfold set_cs. destruct (Nat.eqb_spec (bucket k') b) as [E|E]; cbn [fst].
+          -- destruct (Z.eq_dec k' k) as [->|Hk]; [cbn; rewrite L2, M2, Hmem; reflexivity|].
+             cbn. rewrite L3, M3 by exact Hk. rewrite R1, E, Ecs. reflexivity.
+          -- assert (k' <> k) by (intros ->; apply E; exact Hbk). rewrite L3 by assumption. apply R1.
+        * intros u. unfold upd. destruct (Nat.eqb_spec u t) as [->|]; [cbn; rewrite Hin; symmetry; exact Hob|apply R2].
+        * intros u. unfold upd. destruct (Nat.eqb_spec u t) as [->|]; [intros _; rewrite Hin; discriminate|apply R3].
+        * intros u b0. unfold set_cs, upd. destruct (Nat.eqb_spec b0 b) as [->|Hb]; cbn [snd].
+          -- destruct (Nat.eqb_spec u t) as [->|Hu].
+             ++ rewrite Hin. cbn. rewrite Nat.eqb_refl. cbn in Hres. rewrite Hres. reflexivity.
+             ++ specialize (R4 u b). rewrite Ecs in R4. exact R4.
+          -- destruct (Nat.eqb_spec u t) as [->|Hu]; [|apply R4].
+             rewrite R4, Hin. cbn. destruct (Nat.eqb_spec b b0); [congruence|reflexivity].
+      + intros u. unfold upd. destruct (Nat.eqb_spec u t) as [->|Hu]; [|tauto]. split; intros H; [discriminate|congruence].
+    - (* response *)
+      destruct (stb t) as [| |o r] eqn:Estb; try discriminate.
+      destruct (res_eqb SetSpec x r) eqn:Er; [|discriminate]. inversion Hstep; subst cb'; clear Hstep.
+      assert (Hin : in_b b (cur t) = true /\ st t = Linearized o r).
+      { specialize (R4 t b). rewrite Ecs in R4. cbn in R4. rewrite Estb in R4. destruct (in_b b (cur t)); [auto|discriminate]. }
+      destruct Hin as [Hin Est]. apply in_b_true in Hin.
+      rewrite Est, Er. exists S, (upd st t Idle), (upd_cur cur t None). split; [reflexivity|]. split.
+      + repeat split.
+        * intros k'. unfold set_cs. destruct (Nat.eqb_spec (bucket k') b) as [E|E]; cbn [fst]; [rewrite R1, E, Ecs; reflexivity|apply R1].
+        * intros u. unfold upd_cur, upd. destruct (Nat.eqb_spec u t); [reflexivity|apply R2].
+        * intros u. unfold upd_cur, upd. destruct (Nat.eqb_spec u t); [congruence|apply R3].
+        * intros u b0. unfold set_cs, upd_cur, upd. destruct (Nat.eqb_spec b0 b) as [->|Hb]; cbn [snd].
+          -- destruct (Nat.eqb_spec u t) as [->|Hu]; [reflexivity|]. specialize (R4 u b). rewrite Ecs in R4. exact R4.
+          -- destruct (Nat.eqb_spec u t) as [->|Hu]; [|apply R4]. cbn.
+             rewrite R4, Hin. cbn. destruct (Nat.eqb_spec b b0); [congruence|reflexivity].
+      + intros u. unfold upd. destruct (Nat.eqb_spec u t) as [->|Hu]; [tauto|]. split; [intros H; right; exact H|intros [H|H]; [congruence|exact H]].
+  Qed.
+
+
+  Lemma rel_ext S st cs cs' cur : (forall b, cs b = cs' b) -> rel S st cs cur -> rel S st cs' cur.
+  Proof.
+    intros E (R1 & R2 & R3 & R4). repeat split; auto.
+    - intros k. rewrite <- E. apply R1.
+    - intros t b. rewrite <- E. apply R4.
+  Qed.
+
+  Lemma set_cs_same cs b c : set_cs cs b c b = c.
+  Proof. unfold set_cs. now rewrite Nat.eqb_refl. Qed.
+  Lemma set_cs_twice cs b c c' b0 : set_cs (set_cs cs b c) b c' b0 = set_cs cs b c' b0.
+  Proof. unfold set_cs. destruct (Nat.eqb b0 b); reflexivity. Qed.
+
+  (** the linearization points that follow an event in bucket [b]'s annotated trace *)
+  Lemma run_lins : forall lins S st cs cur b cb',
+    Forall (fun e => is_lin e = true) lins -> rel S st cs cur -> lp_run (Sp:=SetSpec) (cs b) lins = Some cb' ->
+    exists S' st' cur', lp_run (Sp:=SetSpec) (S, st) lins = Some (S', st') /\ rel S' st' (set_cs cs b cb') cur' /\
+                        (forall u, st' u = Idle <-> st u = Idle).
+  Proof.
+    induction lins as [|e lins IH]; intros S st cs cur b cb' HL HR Hrun.
+    - cbn in Hrun. inversion Hrun; subst cb'. exists S, st, cur. split; [reflexivity|]. split; [|tauto].
+      eapply rel_ext; [|exact HR]. intros b0. unfold set_cs. destruct (Nat.eqb_spec b0 b); [subst; reflexivity|reflexivity].
+    - inversion HL as [|e' l' He Hl]; subst. destruct e as [t o|t|t x]; cbn in He; try discriminate.
+      cbn [lp_run] in Hrun. destruct (lp_step (Sp:=SetSpec) (cs b) (ALin t)) as [cb1|] eqn:E1; [|discriminate].
+      destruct (rel_step S st cs cur b (ALin t) cb1 HR E1 I) as (S1 & st1 & cur1 & K1 & K2 & K3).
+      assert (Hrun' : lp_run (Sp:=SetSpec) (set_cs cs b cb1 b) lins = Some cb') by (rewrite set_cs_same; exact Hrun).
+      destruct (IH S1 st1 (set_cs cs b cb1) cur1 b cb' Hl K2 Hrun') as (S2 & st2 & cur2 & J1 & J2 & J3).
+      exists S2, st2, cur2. split; [cbn [lp_run]; rewrite K1; exact J1|]. split.
+      + eapply rel_ext; [|exact J2]. intros b0. apply set_cs_twice.
+      + intros u. rewrite J3. apply K3.
+  Qed.
+
+  Definition idleb (s : statusS) : bool := match s with Idle => true | _ => false end.
+  Lemma idleb_spec s : idleb s = true <-> s = Idle.
+  Proof. destruct s; cbn; split; intros H; try reflexivity; try discriminate. Qed.
+
+  Lemma idleb_iff s s' : (s' = Idle <-> s = Idle) -> idleb s = idleb s'.
+  Proof.
+    intros H. destruct (idleb s) eqn:E1; destruct (idleb s') eqn:E2; try reflexivity.
+    - apply idleb_spec in E1. apply H in E1. apply idleb_spec in E1. congruence.
+    - apply idleb_spec in E2. apply H in E2. apply idleb_spec in E2. congruence.
+  Qed.
+
+  Lemma hseq_ext opn opn' gl : (forall u, opn u = opn' u) -> hseq opn gl -> hseq opn' gl.
+  Proof.
+    revert opn opn'. induction gl as [|[b [t o|t r]] gl IH]; intros opn opn' E H; cbn [hseq] in *; [exact I| |].
+    - destruct H as (H1 & H2 & H3). rewrite <- E. repeat split; auto. eapply IH; [|exact H3]. intros u. cbn. rewrite E. reflexivity.
+    - destruct H as (H1 & H3). rewrite <- E. split; auto. eapply IH; [|exact H3]. intros u. cbn. rewrite E. reflexivity.
+  Qed.
+
+  Lemma hfilter_cons_same b e gl : hfilter b ((b, e) :: gl) = e :: hfilter b gl.
+  Proof. unfold hfilter. cbn. rewrite Nat.eqb_refl. reflexivity. Qed.
+  Lemma hfilter_cons_other b b' e gl : b' <> b -> hfilter b' ((b, e) :: gl) = hfilter b' gl.
+  Proof. intros H. unfold hfilter. cbn. destruct (Nat.eqb_spec b b'); [congruence|reflexivity]. Qed.
+
+  Lemma erase_nil_nolead l : erase (Sp:=SetSpec) l = [] -> no_lead_lin l -> l = [].
+  Proof. destruct l as [|[t o|t|t r] l]; cbn; intros H1 H2; try discriminate; [reflexivity|contradiction]. Qed.
+
+  Lemma weave_sim : forall (gl : list (nat * hevS)) S st cs cur (rem : nat -> list aevS),
+    rel S st cs cur -> hseq (fun t => negb (idleb (st t))) gl ->
+    (forall b, exists c', lp_run (Sp:=SetSpec) (cs b) (rem b) = Some c') ->
+    (forall b, erase (rem b) = hfilter b gl) -> (forall b, no_lead_lin (rem b)) ->
+    exists ATR c', lp_run (Sp:=SetSpec) (S, st) ATR = Some c' /\ erase ATR = map snd gl.
+  Proof.
+    induction gl as [|[b e] gl IH]; intros S st cs cur rem HR HS HB HE HN.
+    - exists [], (S, st). split; reflexivity.
+    - pose proof (HE b) as Eb. rewrite hfilter_cons_same in Eb.
+      destruct (rem b) as [|x r1] eqn:Erem; [discriminate|].
+      pose proof (HN b) as Nb. rewrite Erem in Nb.
+      destruct (HB b) as (cfin & Hrun). rewrite Erem in Hrun. cbn [lp_run] in Hrun.
+      destruct (lp_step (Sp:=SetSpec) (cs b) x) as [cb1|] eqn:E1; [|discriminate].
+      pose proof (span_lins_app r1) as Hsp. pose proof (span_lins_lins r1) as Hlins. pose proof (span_lins_rest r1) as Hrest.
+      destruct (span_lins r1) as [lins r2]. cbn [fst snd] in *.
+      rewrite Hsp in Hrun. rewrite lp_run_app in Hrun.
+      destruct (lp_run (Sp:=SetSpec) cb1 lins) as [cb2|] eqn:E2; [|discriminate].
+      assert (Hx : (exists t o, x = AInv t o /\ e = HInv t o) \/ (exists t r, x = ARes t r /\ e = HRes t r)).
+      { destruct x as [t o|t|t r]; cbn in Eb, Nb; [left|contradiction|right]; inversion Eb; eauto. }
+      assert (Er1 : erase r1 = hfilter b gl).
+      { destruct x as [t o|t|t r]; cbn in Eb, Nb; [|contradiction|]; inversion Eb; reflexivity. }
+      assert (Er2 : erase r2 = hfilter b gl).
+      { rewrite <- Er1, Hsp, erase_app, (erase_lins lins Hlins). reflexivity. }
+      assert (Hpre : match x with AInv t o => op_bucket o = Some b /\ st t = Idle | _ => True end).
+      { destruct Hx as [(t & o & -> & ->)|(t & r & -> & ->)]; [|exact I]. cbn [hseq] in HS. destruct HS as (H1 & H2 & _).
+        split; [exact H2|]. apply idleb_spec. destruct (idleb (st t)); [reflexivity|discriminate]. }
+      destruct (rel_step S st cs cur b x cb1 HR E1 Hpre) as (S1 & st1 & cur1 & K1 & K2 & K3).
+      assert (E2' : lp_run (Sp:=SetSpec) (set_cs cs b cb1 b) lins = Some cb2) by (rewrite set_cs_same; exact E2).
+      destruct (run_lins lins S1 st1 (set_cs cs b cb1) cur1 b cb2 Hlins K2 E2') as (S2 & st2 & cur2 & J1 & J2 & J3).
+      set (rem2 := fun b' => if Nat.eqb b' b then r2 else rem b').
+      destruct (IH S2 st2 (set_cs cs b cb2) cur2 rem2) as (ATR' & c' & L1 & L2).
+      + eapply rel_ext; [|exact J2]. intros b0. apply set_cs_twice.
+      + destruct Hx as [(t & o & -> & ->)|(t & r & -> & ->)]; cbn [hseq] in HS.
+        * destruct HS as (_ & _ & HS). eapply hseq_ext; [|exact HS]. intros u. cbn beta.
+          destruct (Nat.eqb_spec u t) as [->|Hu].
+          -- destruct (idleb (st2 t)) eqn:Ei; [|reflexivity]. apply idleb_spec in Ei. apply J3 in Ei. apply K3 in Ei. destruct Ei; congruence.
+          -- f_equal. apply idleb_iff. rewrite J3, K3. tauto.
+        * destruct HS as (_ & HS). eapply hseq_ext; [|exact HS]. intros u. cbn beta.
+          destruct (Nat.eqb_spec u t) as [->|Hu].
+          -- assert (st2 t = Idle) by (apply J3; apply K3; left; reflexivity). rewrite H. reflexivity.
+          -- f_equal. apply idleb_iff. rewrite J3, K3. split; [intros [H|H]; [congruence|exact H]|intros H; right; exact H].
+      + intros b0. unfold set_cs, rem2. destruct (Nat.eqb_spec b0 b) as [->|Hb]; [exists cfin; exact Hrun|apply HB].
+      + intros b0. unfold rem2. destruct (Nat.eqb_spec b0 b) as [->|Hb]; [exact Er2|]. rewrite HE. apply hfilter_cons_other. exact Hb.
+      + intros b0. unfold rem2. destruct (Nat.eqb_spec b0 b) as [->|Hb]; [exact Hrest|apply HN].
+      + exists (x :: lins ++ ATR'), c'. split.
+        * cbn [lp_run]. rewrite K1. cbv iota beta. rewrite lp_run_app.
+          match goal with |- match ?X with _ => _ end = _ => replace X with (Some (S2, st2)) by (symmetry; exact J1) end. exact L1.
+        * cbn [map snd]. rewrite <- L2. destruct Hx as [(t & o & -> & ->)|(t & r & -> & ->)]; cbn [erase]; rewrite erase_app, (erase_lins lins Hlins); reflexivity.
+  Qed.
+
+  (** LP-level locality: if the tagged history is per-thread sequential and every bucket's sub-history has a valid LP annotation,
+      then the whole history has one *)
+  Theorem weave_valid (gl : list (nat * hevS)) (atrs : nat -> list aevS) :
+    hseq (fun _ => false) gl ->
+    (forall b, lp_valid SetSpec (atrs b) /\ erase (atrs b) = hfilter b gl) ->
+    exists ATR, lp_valid SetSpec ATR /\ erase ATR = map snd gl.
+  Proof.
+    intros HS HB.
+    destruct (weave_sim gl [] (fun _ => @Idle SetSpec) (fun _ => (@lp_init SetSpec)) (fun _ => None) atrs) as (ATR & c' & H1 & H2).
+    - repeat split; auto; try (intros t H; exfalso; apply H; reflexivity).
+    - exact HS.
+    - intros b. destruct (HB b) as [[c Hc] _]. exists c. exact Hc.
+    - intros b. apply HB.
+    - intros b. destruct (HB b) as [[c Hc] _]. destruct (atrs b) as [|[t o|t|t r] l]; cbn; auto. cbn in Hc. discriminate.
+    - exists ATR. split; [exists c'; exact H1|exact H2].
+  Qed.
+
   (** ** the composition theorem on LP-annotated traces *)
   Theorem partition_lp_valid (tr : list aevS) :
     shape_ok (fun _ => TIdle) tr ->
